@@ -1719,6 +1719,100 @@ def fam_loop_mutates(rnd, n_random, full=False):
     return cs
 
 
+def lm_inject(rnd, stmts, state):
+    """rewrite the outermost for / while loops of a statement list (recursing into if / try / function bodies): the iterated
+    collection is bound to a variable first, an iteration counter with an emergency exit is added, and one or two container
+    mutations of THAT collection are inserted at random positions of the body"""
+    out = []
+    for s in stmts:
+        t = s[0]
+        if t == 'for' and rnd.random() < 0.9:
+            state['n'] += 1
+            q, c = 'vq%d' % state['n'], 'vn%d' % state['n']
+            isarr = s[2] is None
+            if s[3][0] == 'var' and rnd.random() < 0.7:
+                T = s[3]
+            else:
+                out.append(('var', q, s[3])); T = V(q)
+            out.append(('var', c, N(0)))
+            body = list(s[4])
+            for _ in range(rnd.randint(1, 2)):
+                if isarr: m = lm_arr_mut(rnd.choice(ARR_MUTS), T, V(c), T)
+                else: m = lm_dict_mut(rnd.choice(DICT_MUTS), T, V(c), V(s[1]), T)
+                m = lm_when(rnd.choice(WHENS[:3]), V(c), None, m)
+                p = rnd.randint(0, len(body))
+                body[p:p] = m
+            body = [('set', '+=', V(c), N(1)), IF(('bin', '>', V(c), N(30)), [('break',)])] + body
+            out.append(('for', s[1], s[2], T, body))
+            state['hit'] += 1
+        elif t == 'while' and state.get('containers') and rnd.random() < 0.7:
+            name, isarr = rnd.choice(state['containers'])
+            state['n'] += 1
+            c = 'vn%d' % state['n']
+            out.append(('var', c, N(0)))
+            body = list(s[2])
+            m = lm_arr_mut(rnd.choice(ARR_MUTS), V(name), V(c), V(name)) if isarr else lm_dict_mut(rnd.choice(DICT_MUTS), V(name), V(c), S(rnd.choice(KEYS)), V(name))
+            p = rnd.randint(0, len(body))
+            body[p:p] = m
+            cond = s[1]
+            if rnd.random() < 0.5:      # a container condition next to the counter
+                cond = ('bin', '&&', cond, ('bin', '<', C('len', V(name)), N(rnd.randint(2, 9))))
+            body = [('set', '+=', V(c), N(1)), IF(('bin', '>', V(c), N(30)), [('break',)])] + body
+            out.append(('while', cond, body))
+            state['hit'] += 1
+        elif t == 'if':
+            els = s[3]
+            if isinstance(els, list): els = lm_inject(rnd, els, state)
+            out.append(('if', s[1], lm_inject(rnd, s[2], state), els))
+        elif t == 'try':
+            out.append(('try', lm_inject(rnd, s[1], state), lm_inject(rnd, s[2], state)))
+        elif t == 'func':
+            out.append(('func', s[1], s[2], s[3], lm_inject(rnd, s[4], dict(state, containers=[]))))
+        else:
+            if t == 'var' and s[2][0] in ('arr', 'dict') and not state.get('nested'):
+                state.setdefault('containers', []).append((s[1], s[2][0] == 'arr'))
+            out.append(s)
+    return out
+
+
+def fam_loop_hostile(rnd, n):
+    """hostile loop stream: valid random programs with loops, into whose loop bodies mutations of the iterated container are
+    inserted; still inside the modelled language, so the full observation is compared (on a random stack)"""
+    cand = []
+    tries = 0
+    while len(cand) < 6 * n and tries < 240 * n:
+        tries += 1
+        try:
+            prog = random_program(rnd)
+        except RecursionError:
+            continue
+        text = src_prog(prog)
+        if 'for (' not in text and 'while (' not in text:
+            continue
+        state = {'n': 0, 'hit': 0, 'containers': []}
+        prog2 = legalize(lm_inject(rnd, prog, state))
+        if not state['hit']:
+            continue
+        src = src_prog(prog2)
+        # the small stacks only for programs without function definitions: a recursion that is stopped by the 300-level limit on the main
+        # thread exhausts the 256 KiB coroutine stack first (recorded finding coroutine-stack-overflow, reproduced by its own tagged inputs)
+        mode = rnd.choice(['main', 'thread', 'coro']) if ('function' not in src and '{{' not in src and '=>' not in re.sub(r'for \(\w+ => \w+ in', '', src)) else 'main'
+        cand.append({'lines': ['dsl_eval ast=%s src=%s mode=%s' % (hx(sx_prog(prog2)), hx(src), mode)],
+                     'tags': {'family': 'loop-mutated-random', 'src': src, 'nodes': count_nodes(prog2), 'mode': mode}})
+    # prefer the programs in which (by the model) a rewritten top-level loop ran at least twice: most random programs stop with a
+    # script error before they reach their loop
+    res = model_run(cand)
+    if res is None:
+        return cand[:n]
+    ran, rest = [], []
+    for i, c in enumerate(cand):
+        loc = ''.join(l for l in res[i] if l.startswith('locals '))
+        hit = any(int(x) >= 2 for x in re.findall(r'"vn\d+":(\d+)', loc))
+        c['tags']['loop_ran'] = hit
+        (ran if hit else rest).append(c)
+    return (ran[:n - n // 8] + rest)[:n]
+
+
 NEVER_VALID = ['$', '@@', '`']      # characters that are no terminal of the grammar at all (the lexer hands them through as themselves)
 CLOSERS = {')': '(', ']': '[', '}': '{'}
 
@@ -1860,6 +1954,27 @@ def fam_hostile(rnd, n_mut, n_rand):
                             ('match("a*", "abc")\n', 'value', 'true'), ('union([2, 1], [1])\n', 'value', '[1,2]'), ('Json.decode("[1]")\n', 'value', '[1]'), ('&this\n', 'error', None),
                             ('using { a = 1 }\na\n', 'error', None), ('Json.encode([1, { }])\n', 'value', '"[1,{}]"'), ('Json.encode([1, { a = 1 }])\n', 'error', None), ('*null\n', 'error', None), ('intersection([1], [1])\n', 'value', '[1]')):
         add(src, 'sandbox:new', ('main',), want=want, show=show, sb=True)
+    # loops whose body FREEZES the iterated container, and Array#sort with a comparator that changes the array (freeze and user
+    # comparators are not in the Gallina model: expected values from the code - Array/Dictionary::Freeze make every later Set/Add/
+    # Remove/Clear throw, reads and the loops' own key snapshot / index test are unaffected; `for (k => v in locals)` binds its loop
+    # variables with Dictionary::Set, which a frozen locals dictionary refuses at the next turn; sort works on a shallow clone)
+    for src, show in (
+            ('var a = [1, 2, 3]\nvar log = []\ntry { for (x in a) { log.add(x); a.freeze(); a.add(9) } } except { log.add("caught") }\n[log, a]\n', '[[1,"caught"],[1,2,3]]'),
+            ('var a = [1, 2, 3]\nvar log = []\nfor (x in a) { log.add(x); a.freeze() }\n[log, a]\n', '[[1,2,3],[1,2,3]]'),
+            ('var d = { a = 1, b = 2 }\nvar log = []\ntry { for (k => v in d) { log.add([k, v]); d.freeze(); d.c = 3 } } except { log.add("caught") }\n[log, d]\n', '[[["a",1],"caught"],{"a":1,"b":2}]'),
+            ('var d = { a = 1, b = 2 }\nvar log = []\ntry { for (k => v in d) { log.add([k, v]); d.freeze(); d.remove(k) } } except { log.add("caught") }\n[log, d]\n', '[[["a",1],"caught"],{"a":1,"b":2}]'),
+            ('var d = { a = 1, b = 2 }\nvar log = []\nfor (k => v in d) { log.add([k, v]); d.freeze() }\n[log, d]\n', '[[["a",1],["b",2]],{"a":1,"b":2}]'),
+            ('var d = { a = 1, b = 2 }\nd.freeze()\nvar log = []\nfor (k => v in d) { log.add(k) }\nlog\n', '["a","b"]'),
+            ('var log = []\nthis.a = 1\nthis.b = 2\ntry { for (k => v in this) { log.add(k); this.freeze(); this.c = 3 } } except { log.add("caught") }\nlog\n', '["a","caught"]'),
+            ('var log = []\nvar a = 1\ntry { for (k => v in locals) { log.add(k); locals.freeze() } } except { log.add("caught") }\nlog\n', '["a","caught"]'),
+            ('var a = [1, 2, 3]\nvar n = 0\nwhile (a.len() > 0) { n += 1; a.freeze(); try { a.remove(0) } except { break } }\n[n, a]\n', '[1,[1,2,3]]'),
+            ('var a = [1, 2, 3]\nvar log = []\ntry { a.map(function(x) use(a, log) { log.add(x); a.freeze(); a.add(4); return x }) } except { log.add("caught") }\n[log, a]\n', '[[1,"caught"],[1,2,3]]'),
+            ('var a = [1, 2, 3]\nvar log = []\nvar r = a.filter(function(x) use(a, log) { log.add(x); a.freeze(); return true })\n[log, a, r]\n', '[[1,2,3],[1,2,3],[1,2,3]]'),
+            ('var a = [1, 2, 3]\nvar r = a.reduce(function(x, y) use(a) { a.freeze(); return x + y })\n[a, r]\n', '[[1,2,3],6]'),
+            ('var a = [3, 1, 2]\nvar n = [0]\nvar r = a.sort(function(x, y) use(a, n) { n[0] += 1; if (a.len() < 5) { a.add(9) }; return x < y })\n[a, r, n[0] > 1]\n', '[[3,1,2,9,9],[1,2,3],true]'),
+            ('var a = [3, 1, 2]\nvar r = a.sort(function(x, y) use(a) { a.clear(); return x < y })\n[a, r]\n', '[[],[1,2,3]]'),
+            ('var a = [3, 1, 2]\nvar r = a.sort(function(x, y) use(a) { a = null; return x > y })\n[a, r]\n', '[[3,1,2],[3,2,1]]')):
+        add(src, 'loopmut:freeze-sort', want='value' if show is not None else 'error', show=show)
     # mutated programs
     done = 0
     while done < n_mut:
@@ -1896,12 +2011,12 @@ def fam_hostile(rnd, n_mut, n_rand):
 DROP = ('abort:domain', 'abort:fuel')
 
 
-def screen(cases):
-    """drop dsl_eval cases whose MODEL result leaves the exact domain (inexact numbers, unmodelled conversions, loop budget)"""
-    ev = [c for c in cases if c['lines'][0].startswith('dsl_eval')]
+def model_run(ev):
+    """run the extracted model over dsl_eval cases: {index in ev: model lines}; None when vmodel has not been built yet"""
     if not ev or not os.path.exists(core.VMODEL):
-        return cases, 0
+        return None
     wd = tempfile.mkdtemp(prefix='c15scr_', dir=core.B)
+    saved = [c.get('id') for c in ev]
     try:
         for i, c in enumerate(ev):
             c['id'] = i + 1
@@ -1911,18 +2026,27 @@ def screen(cases):
         with cf.ThreadPoolExecutor(core.NPROC) as ex:
             for r in ex.map(lambda a: core.run_model_shard(([], a[1], wd, a[0], 120)), enumerate(shards)):
                 res.update(r)
-        bad = set()
-        for c in ev:
-            ls = res.get(c['id'], ['MODEL-ERROR'])
-            if any(l.startswith('MODEL-ERROR') for l in ls) or any(l[4:] in DROP for l in ls if l.startswith('res ')):
-                bad.add(id(c))
-        out = [c for c in cases if id(c) not in bad]
-        for c in cases:
-            c.pop('id', None)
-        return out, len(bad)
+        return {i: res.get(i + 1, ['MODEL-ERROR']) for i in range(len(ev))}
     finally:
+        for c, sid in zip(ev, saved):
+            if sid is None: c.pop('id', None)
+            else: c['id'] = sid
         import shutil
         shutil.rmtree(wd, ignore_errors=True)
+
+
+def screen(cases):
+    """drop dsl_eval cases whose MODEL result leaves the exact domain (inexact numbers, unmodelled conversions, loop budget)"""
+    ev = [c for c in cases if c['lines'][0].startswith('dsl_eval')]
+    res = model_run(ev)
+    if res is None:
+        return cases, 0
+    bad = set()
+    for i, c in enumerate(ev):
+        ls = res[i]
+        if any(l.startswith('MODEL-ERROR') for l in ls) or any(l[4:] in DROP for l in ls if l.startswith('res ')):
+            bad.add(id(c))
+    return [c for c in cases if id(c) not in bad], len(bad)
 
 
 _last_dropped = [0]
@@ -1948,6 +2072,7 @@ def generate(seed, tier):
     cases += fam_json(rnd, {'quick': 150, 'thorough': 1500, 'search': 300}.get(tier, 150))
     cases += fam_order(rnd, {'quick': 150, 'thorough': 1500, 'search': 300}.get(tier, 150))
     cases += fam_loop_mutates(rnd, {'quick': 300, 'thorough': 3000, 'search': 600}.get(tier, 300), full=(tier == 'thorough'))
+    cases += fam_loop_hostile(rnd, {'quick': 400, 'thorough': 4000, 'search': 800}.get(tier, 400))
     for _ in range(n_rand):
         try:
             cases.append(mk_case(random_program(rnd), 'random-program'))
@@ -2015,6 +2140,8 @@ def extra_stats(cases, impl):
     res['loop_mutates_programs'] = len(lm)
     res['loop_mutates_constructs'] = len(set(t.get('loop') for t in lm))
     res['loop_mutates_construct_x_mutation_x_via'] = len(set((t.get('loop'), t.get('mut'), t.get('via')) for t in lm))
+    res['loop_mutated_random_programs'] = sum(1 for c in cases if c.get('tags', {}).get('family') == 'loop-mutated-random')
+    res['loop_mutated_random_loop_ran_twice'] = sum(1 for c in cases if c.get('tags', {}).get('loop_ran'))
     res['closure_state_programs'] = sum(1 for c in cases if c.get('tags', {}).get('family') == 'closure-state')
     kw = {'typeof': 'typeof(', 'union': 'union(', 'intersection': 'intersection(', 'match': 'match(', 'ref': '&', 'const': 'const ', 'namespace': 'namespace ', 'using': 'using ', 'json': 'Json.',
           'else_if_chain2': None}
